@@ -659,13 +659,13 @@ func fsfOracle(c *ctx, seg uint64, ops []string, toks []string, line string) {
 					if !has("fs:" + name) {
 						c.witness("C07", "fault-sync-ok-without-file-fsync", where+" without a successful fsync of the file", line)
 					} else if pend[name] {
-						c.witness("C07", "fault-sync-ok-entry-not-synced", where+" although no directory fsync has succeeded since the file was created (an earlier Sync through this handle failed in syncDir; fs.File.new was already set, so the directory fsync is never retried)", line)
+						c.witness("C07", "fault-sync-ok-entry-not-synced", where+" although no directory fsync has succeeded since the file was created (the handle skipped the directory fsync, e.g. on the retry after a Sync that failed in syncDir: the defect repaired by b0161d2)", line)
 					}
 				case "mi":
 					if !metaExists {
 						c.witness("C07", "fault-meta-ok-incomplete", where+" but wal-meta.db was never renamed into place", line)
 					} else if renPending {
-						c.witness("C07", "fault-meta-ok-dir-not-synced", where+" although no directory fsync has succeeded since wal-meta.db was renamed into place (an earlier Load failed after the rename; the retry only opens the file)", line)
+						c.witness("C07", "fault-meta-ok-dir-not-synced", where+" although no directory fsync has succeeded since wal-meta.db was renamed into place (e.g. an earlier Load failed after the rename and the retry only opened the file: the defect repaired by 862e6cb)", line)
 					}
 				}
 			}
@@ -824,6 +824,10 @@ func genFsf(c *ctx, r *rand.Rand, emit func(string), n int) {
 		"400 openat:EMFILE:3 mi mc mi mc",
 		"400 fdatasync:EIO:2 mi mc mc mi",
 		"400 - mc mi mi mc cr:0 wr:0:0:10 sy:0",
+		// Load of an existing db (862e6cb): its directory fsync / directory open / db open failing
+		"400 fsync:EIO:2 mi mi mi mc",
+		"400 openat:EMFILE:4 mi mi mi mc",
+		"400 openat:EMFILE:5 mi mi mi mc",
 	}
 	for i := 0; i < n; i++ {
 		if i < len(fixed) {
